@@ -79,18 +79,22 @@ Proof.
 Qed.
 
 (* ------------------------------------------------------- the statements *)
-Definition A1_stmt (e : exp) : Prop := forall lvl rest, lvl <= 13 -> 12 <= eff lvl e -> nosuffix rest ->
+Definition A1_stmt (e : exp) : Prop := forall lvl rest, lvl <= 12 -> 12 <= eff lvl e -> nosuffix rest ->
   evals (fun f => p_short1 f (wrap lvl e (raw e) ++ rest)) (Ok (norm e, rest)).
-Definition A_stmt (e : exp) : Prop := forall lvl rest, lvl <= 13 -> 10 <= eff lvl e -> stop_short rest ->
+Definition A_stmt (e : exp) : Prop := forall lvl rest, lvl <= 12 -> 10 <= eff lvl e -> stop_short rest ->
   evals (fun f => p_short f (wrap lvl e (raw e) ++ rest)) (Ok (norm e, rest)).
-Definition Px_stmt (e : exp) : Prop := forall lvl rest R, lvl <= 13 -> eff lvl e = 13 ->
+Definition Px_stmt (e : exp) : Prop := forall lvl rest R, lvl <= 12 -> eff lvl e = 13 ->
   evals (fun f => p_suffix f (norm e) rest) R ->
   evals (fun f => p_prefix f (wrap lvl e (raw e) ++ rest)) R.
-Definition C_stmt (e : exp) : Prop := forall lvl stack o rest R, lvl <= 13 ->
+Definition C_stmt (e : exp) : Prop := forall lvl stack o rest R, lvl <= 12 ->
   (stack = [] \/ 10 <= eff lvl e \/ breaks_at (eff lvl e) o = true) ->
   closes (eff lvl e) rest -> stop_short rest ->
   evals (fun f => p_loop f stack (norm e, o) rest) R ->
   evals (fun f => run f stack o (wrap lvl e (raw e) ++ rest)) R.
+(* as the head of a prefix expression (context level 13) *)
+Definition PxT_stmt (e : exp) : Prop := forall rest R,
+  evals (fun f => p_suffix f (ntarget e (norm e)) rest) R ->
+  evals (fun f => p_prefix f (wrap 13 e (raw e) ++ rest)) R.
 Definition E_stmt (e : exp) : Prop := forall rest, stop_exp rest ->
   evals (fun f => p_exp f (raw e ++ rest)) (Ok (norm e, rest)).
 
@@ -121,12 +125,12 @@ Proof.
   eapply evals_bind; [apply HE; apply stop_exp_rparen|]. cbn [fst snd]. exact HR.
 Qed.
 
-Lemma eff_wrapped lvl e : level e <? lvl = true -> lvl <= 13 -> level e < 13.
+Lemma eff_wrapped lvl e : level e <? lvl = true -> lvl <= 12 -> level e < 12.
 Proof. intros H1 H2. apply Nat.ltb_lt in H1. lia. Qed.
 
 (* Px for an automatically parenthesised expression *)
 Lemma Px_wrapped e lvl rest R :
-  E_stmt e -> lvl <= 13 -> level e <? lvl = true ->
+  E_stmt e -> lvl <= 12 -> level e <? lvl = true ->
   evals (fun f => p_suffix f (norm e) rest) R ->
   evals (fun f => p_prefix f (wrap lvl e (raw e) ++ rest)) R.
 Proof.
@@ -138,7 +142,7 @@ Qed.
 Lemma p_short1_prefix n t ts : pfx_tok t -> p_short1 n (t :: ts) = p_prefix n (t :: ts).
 Proof. intros [->|[k ->]]; reflexivity. Qed.
 
-Lemma A1_of_Px e : Px_stmt e -> forall lvl rest, lvl <= 13 -> eff lvl e = 13 -> nosuffix rest ->
+Lemma A1_of_Px e : Px_stmt e -> forall lvl rest, lvl <= 12 -> eff lvl e = 13 -> nosuffix rest ->
   evals (fun f => p_short1 f (wrap lvl e (raw e) ++ rest)) (Ok (norm e, rest)).
 Proof.
   intros HP lvl rest Hl He Hs.
@@ -392,16 +396,16 @@ Proof.
   - split; intros _; right; [intros o' E; discriminate E|exact I].
 Qed.
 
-Lemma eff_ge lvl e : lvl <= 13 -> lvl <= eff lvl e.
+Lemma eff_ge lvl e : lvl <= 12 -> lvl <= eff lvl e.
 Proof. unfold eff. destruct (level e <? lvl) eqn:E; [lia|]. apply Nat.ltb_ge in E. lia. Qed.
 
 Lemma concat_prec o : is_concat o = true <-> prec o = 7.
 Proof. destruct o; simpl; split; intros; try discriminate; try reflexivity; lia. Qed.
 
-Lemma lmin_facts o : prec o <= lmin o /\ lmin o <= 13 /\ (prec o = 7 -> 8 <= lmin o).
+Lemma lmin_facts o : prec o <= lmin o /\ lmin o <= 12 /\ (prec o = 7 -> 8 <= lmin o).
 Proof. destruct o; simpl; lia. Qed.
 
-Lemma rmin_facts o : prec o <= 9 -> prec o <= rmin o /\ rmin o <= 13 /\ (prec o <> 7 -> prec o < rmin o).
+Lemma rmin_facts o : prec o <= 9 -> prec o <= rmin o /\ rmin o <= 12 /\ (prec o <> 7 -> prec o < rmin o).
 Proof. destruct o; simpl; lia. Qed.
 
 Lemma tok_binop_stop o more : prec o <= 9 -> stop_short (tok_of_binop o :: more).
@@ -476,7 +480,7 @@ Definition C_raw (e : exp) : Prop := forall stack o rest R,
   evals (fun f => run f stack o (raw e ++ rest)) R.
 
 Definition All (e : exp) : Prop :=
-  A1_stmt e /\ A_stmt e /\ Px_stmt e /\ C_stmt e /\ E_stmt e /\ T_stmt e.
+  A1_stmt e /\ A_stmt e /\ Px_stmt e /\ C_stmt e /\ E_stmt e /\ T_stmt e /\ PxT_stmt e.
 
 Lemma eff13 e : eff 13 e = 13.
 Proof.
@@ -528,6 +532,12 @@ Proof.
   { intros lvl stack o rest R Hl Hfit Hcl Hs HR. destruct (level e <? lvl) eqn:Ew.
     - apply C_of_A; [apply HA; auto; unfold eff; rewrite Ew; lia|exact HR].
     - unfold eff in Hfit, Hcl. rewrite Ew in Hfit, Hcl. unfold wrap. rewrite Ew. apply HCr; auto. }
+  assert (HPT : PxT_stmt e).
+  { intros rest R HR. destruct (level e <? 13) eqn:Ew.
+    - unfold wrap. rewrite Ew. norm_app. apply prefix_paren; [exact HE|].
+      rewrite in_brackets_target; [exact HR|]. apply Nat.ltb_lt. exact Ew.
+    - unfold wrap. rewrite Ew. apply Nat.ltb_ge in Ew. apply H13; [lia|].
+      rewrite ntarget13 in HR by lia. exact HR. }
   repeat split; assumption.
 Qed.
 
@@ -586,23 +596,23 @@ Proof.
   - (* EIndex *)
     apply assemble; try no_level; try exact I.
     intros _ rest R HR. cbn [raw]. norm_app.
-    destruct (IH e1) as (_ & _ & HP1 & _); [simpl; lia|]. destruct (IH e2) as (_ & _ & _ & _ & HE2 & _); [simpl; lia|].
-    apply HP1; [lia|apply eff13|].
+    destruct (IH e1) as (_ & _ & _ & _ & _ & _ & HP1); [simpl; lia|]. destruct (IH e2) as (_ & _ & _ & _ & HE2 & _); [simpl; lia|].
+    apply HP1.
     apply evals_S. eapply evals_ext; [intro f; apply p_suffix_index|].
     eapply evals_bind; [apply HE2; apply stop_exp_rbrack|]. cbn [fst snd]. exact HR.
   - (* EDot *)
     apply assemble; try no_level; try exact I.
     intros _ rest R HR. cbn [raw]. norm_app.
-    destruct (IH e) as (_ & _ & HP1 & _); [simpl; lia|].
-    apply HP1; [lia|apply eff13|].
+    destruct (IH e) as (_ & _ & _ & _ & _ & _ & HP1); [simpl; lia|].
+    apply HP1.
     apply evals_S. eapply evals_ext; [intro f; apply p_suffix_dot|]. exact HR.
   - (* ECall *)
     apply assemble; try no_level; try exact I.
     intros _ rest R HR. rewrite raw_call. norm_app.
-    destruct (IH e) as (_ & _ & HP1 & _); [simpl; lia|].
+    destruct (IH e) as (_ & _ & _ & _ & _ & _ & HP1); [simpl; lia|].
     assert (HI : forall a, In a args -> E_stmt a /\ T_stmt a).
-    { intros a Ha. destruct (IH a (size_arg e m bare args a Ha)) as (_ & _ & _ & _ & HEa & HTa). split; assumption. }
-    apply HP1; [lia|apply eff13|].
+    { intros a Ha. destruct (IH a (size_arg e m bare args a Ha)) as (_ & _ & _ & _ & HEa & HTa & _). split; assumption. }
+    apply HP1.
     destruct m as [k|]; cbn [app].
     + apply evals_S. eapply evals_ext; [intro f; apply p_suffix_method|].
       eapply evals_bind; [apply args_ok; exact HI|]. cbn [fst snd]. exact HR.
@@ -685,15 +695,19 @@ Lemma norm_plain : forall e, plain e = true -> norm e = e.
 Proof.
   assert (H : forall n e, size e < n -> plain e = true -> norm e = e).
   { induction n; intros e Hs Hp; [lia|]. destruct e; try reflexivity; try discriminate Hp.
-    - simpl in Hp. apply andb_true_iff in Hp. destruct Hp as [H1 H2]. simpl in Hs. cbn [norm].
-      rewrite (IHn e1), (IHn e2); auto; lia.
+    - simpl in Hp. apply andb_true_iff in Hp. destruct Hp as [Hp H2]. apply andb_true_iff in Hp.
+      destruct Hp as [H0 H1]. simpl in Hs. cbn [norm].
+      rewrite (IHn e1), (IHn e2); auto; try lia. destruct e1; try reflexivity; discriminate H0.
     - simpl in Hp. apply andb_true_iff in Hp. destruct Hp as [Hp H3]. apply andb_true_iff in Hp.
-      destruct Hp as [H1 H2]. destruct bare; [discriminate H2|]. cbn [norm].
-      rewrite (IHn e); [|simpl in Hs; lia|exact H1]. f_equal. apply map_fix. intros a Ha.
+      destruct Hp as [Hp H2]. apply andb_true_iff in Hp. destruct Hp as [H0 H1].
+      destruct bare; [discriminate H2|]. cbn [norm].
+      rewrite (IHn e); [|simpl in Hs; lia|exact H1].
+      replace (ntarget e e) with e by (destruct e; try reflexivity; discriminate H0).
+      f_equal. apply map_fix. intros a Ha.
       apply IHn; [pose proof (size_arg e m false args a Ha); lia|].
       rewrite forallb_forall in H3. apply H3. exact Ha.
     - simpl in Hp. apply andb_true_iff in Hp. destruct Hp as [H1 H2]. cbn [norm].
-      rewrite (IHn e); [|simpl in Hs; lia|exact H2]. cbv zeta. rewrite H1. reflexivity.
+      rewrite (IHn e); [|simpl in Hs; lia|exact H2]. destruct e; try discriminate H1; reflexivity.
     - cbn [plain] in Hp. apply andb_true_iff in Hp. destruct Hp as [H1 H2].
       destruct trail; [discriminate H1|]. rewrite norm_table. f_equal. apply map_fix.
       intros f Hf. rewrite forallb_forall in H2. specialize (H2 f Hf).
